@@ -323,6 +323,14 @@ func lifecycleOracleOn(c *Ctx, evs []vh.Event, cfgExtensions []string) {
 			c.Check(known[n], "lines_only_known", "C15/unknown-extension-line", "status line for an extension nobody launched or registered", n)
 			// truthfulness of state / subscriptions against acknowledged calls (interval semantics)
 			var reg, nxt, ierr, xerr *call
+			// the status lines are composed some time between the previous platform event and their own emission:
+			// only what had been acknowledged before that previous event is certain to have been visible
+			horizon := int64(0)
+			for _, e := range evs {
+				if e.Src == "events" && e.Seq < l.Seq && e.Op != "ExtensionInit" {
+					horizon = e.Seq
+				}
+			}
 			// agents survive a failed init until the next reset clears them: look back to the last clear
 			lower := int64(0)
 			for _, e := range evs {
@@ -370,12 +378,12 @@ func lifecycleOracleOn(c *Ctx, evs []vh.Event, cfgExtensions []string) {
 			case "ExitError":
 				c.Check(xerr != nil, "extension_state_truthful", "C15/ext-state/ExitError-without-report", "extension reported ExitError without having reported one", n)
 			case "Started":
-				ack := reg != nil && reg.retSeq != 0 && reg.retSeq < l.Seq && reg.status == 200
+				ack := reg != nil && reg.retSeq != 0 && reg.retSeq < horizon && reg.status == 200
 				c.Check(!ack, "extension_state_truthful", "C15/ext-state/Started-after-register", "extension reported Started although its registration had been acknowledged", n)
 			case "LaunchError":
 				c.Clause("extension_state_truthful")
 			}
-			if reg != nil && reg.retSeq != 0 && reg.retSeq < l.Seq && reg.status == 200 {
+			if reg != nil && reg.retSeq != 0 && reg.retSeq < horizon && reg.status == 200 {
 				body := reg.extra["body"]
 				var want []string
 				for _, ev := range []string{"INVOKE", "SHUTDOWN"} {
